@@ -38,7 +38,7 @@ def rstrip_char(it, s, ch):
     st = simp(s)
     if z3.is_string_value(st):
         return z3.StringVal(conc(VStr(st)).rstrip(ch))
-    key = ('rstrip', st.get_id(), ch)
+    key = ('rstrip', it.ctx.keep(st), ch)
     memo = ctx.ghost.setdefault('memo', {})
     if key in memo:
         return memo[key]
@@ -270,7 +270,7 @@ def install(lib):
             kv = m.kty.wrap(kb)
             vv = m.vty.wrap(o.val(z3.Select(m.t, kb)))
             if isinstance(vv, VRef):
-                it.ctx.known_class.setdefault(simp(vv.t).get_id(), vv.classes[0]) if vv.classes and len(vv.classes) == 1 else None
+                it.ctx.known_class.setdefault(it.ctx.keep(simp(vv.t)), vv.classes[0]) if vv.classes and len(vv.classes) == 1 else None
             conds, val = v.predicate(it, VTuple([kv, vv]))
             if conds or not isinstance(val, VTuple) or len(val.items) != 2:
                 raise Unsupported('dict() of a filtered or non-pair comprehension', n)
@@ -986,7 +986,7 @@ def install(lib):
         fh = ufun('py_path_head', S, S)
         ft = ufun('py_path_tail', S, S)
         h, t = fh(pt), ft(pt)
-        key = ('pathsplit', pt.get_id())
+        key = ('pathsplit', ctx.keep(pt))
         if key not in ctx.axiom_tags:
             ctx.axiom_tags.add(key)
             ctx.assume(pt == z3.Concat(h, t))
@@ -1001,7 +1001,7 @@ def install(lib):
         fp = ufun('py_dot_pre', S, S)
         fs = ufun('py_dot_suf', S, S)
         pre, suf = fp(tt), fs(tt)
-        key = ('dotsplit', tt.get_id())
+        key = ('dotsplit', ctx.keep(tt))
         if key not in ctx.axiom_tags:
             ctx.axiom_tags.add(key)
             dot = z3.StringVal('.')
